@@ -773,6 +773,22 @@ theorem vector_vortex_decomposition [CommRing K] (i ch sh c2 s2 : K) (e : K × K
   simp only [retarderJones, vortexTerm, Jones.apply, Prod.mk.injEq]
   constructor <;> ring
 
+/-- **The multi-scale construction is linear in the mask.**  Take any levels (windows, resamplers,
+propagator stand-ins) and two families of raw masks `m₁`, `m₂`; build the stored masks with the
+constructor's recursion and run `forward`: the result for the raw masks `a·m₁ + b·m₂` is
+`a·forward₁ + b·forward₂` — for every number of levels, with or without Lyot stop.  With
+`vector_vortex_decomposition` (every Jones component of the raw vortex mask is
+`cos(δ/2)·(identity part) + sin(δ/2)·(i·vortex part)`) this is the closed form the harness checks on
+the real `VectorVortexCoronagraph` at every wavelength of a history:
+`out(δ) = cos(δ/2)·out(0) + sin(δ/2)·out(π)`.  About `msForward` / `msMasks`, the definitions op
+`msalg` runs against the real constructors and `VectorVortexCoronagraph.make_instance`. -/
+theorem multiscale_linear_in_mask [CommRing K] {d n : ℕ} (a b : K)
+    (ts : List (MSLevel K d n × Vector K d × Vector K d)) (stop : Option (Vector K n)) (E : Vector K n) :
+    toFn (msForward (ts.map fun t => { t.1 with raw := Vector.ofFn fun p => a * t.2.1[p] + b * t.2.2[p] }) stop E) =
+      a • toFn (msForward (ts.map fun t => { t.1 with raw := t.2.1 }) stop E) +
+      b • toFn (msForward (ts.map fun t => { t.1 with raw := t.2.2 }) stop E) :=
+  toFn_msForward_comb a b ts stop E
+
 /-- A circular state `(1, ±i)` keeps the amplitude `cos(δ/2)` in its own state, without any
 dependence on the fast-axis angle (no vortex phase: this part is not nulled), and `i sin(δ/2) e^{±2iφ}`
 goes to the opposite state (the vortex of charge `2φ/θ`). -/
@@ -846,6 +862,14 @@ theorem vector_vortex_history_leak [Field K] [CharZero K] [BEq K] [LawfulBEq K] 
   apply List.map_congr_left
   intro wl _
   exact vector_vortex_leak_eq_cos_sq cj i _ _ c2 s2 hi hci (hreal wl).1 (hreal wl).2 hc2 hs2 (hunit wl) hf plus
+
+/-- The hypotheses on `param` are satisfiable together with those of the `example` above (a plate
+whose retardance does not depend on the wavelength; any real-valued unit `(cos, sin)` table does). -/
+example : ∃ param : ℂ → ℂ × ℂ,
+    (∀ wl, (starRingEnd ℂ) (param wl).1 = (param wl).1 ∧ (starRingEnd ℂ) (param wl).2 = (param wl).2) ∧
+    ∀ wl, (param wl).1 ^ 2 + (param wl).2 ^ 2 = 1 :=
+  ⟨fun _ => (3 / 5, 4 / 5), fun _ => ⟨by simp only [map_div₀, map_ofNat], by simp only [map_div₀, map_ofNat]⟩,
+    fun _ => by norm_num⟩
 
 end VectorVortex
 
